@@ -33,7 +33,8 @@ ASSUMPTIONS = [
 
 def floors(tier):
     return {"clean": 800, "garbage": 800, "nontrivial": 500, "all-accepted": 100,
-            "filtered-frame-malformed": 100, "short-reads": 300, "largest-frames": 200}
+            "filtered-frame-malformed": 100, "short-reads": 300, "largest-frames": 200,
+            "carrier-frame": 800, "source=buffered": 300, "source=file": 150, "source=rawpipe": 100}
 
 
 def plan(tier, seed):
@@ -46,11 +47,12 @@ def run(data, opts):
     core.log_off()
     try:
         bursts = opts.get("_bursts")
-        stream = S.TrackingStream(data, bursts) if bursts else io.BytesIO(data)
+        stream = S.TrackingStream(data, bursts) if bursts else S.make_source(data, opts.get("_source") or "bytesio")
         o = {k: v for k, v in opts.items() if not k.startswith("_")}
         return S.read_all(stream, o, handler=S.handler_returning(len(data) + o.get("protfilter", 7)) if o["quitonerror"] == 1 else None,
                           limit=4 * len(data) + 50)
     finally:
+        S.close_sources()
         core.log_on()
 
 
@@ -65,7 +67,8 @@ def check(case) -> core.Out:
     items, opts = case["items"], dict(case["opts"])
     data = streams.stream_bytes(items)
     clean = case["clean"]
-    out = core.Out(classes=["clean" if clean else "garbage"] + (["short-reads"] if opts.get("_bursts") else []),
+    out = core.Out(classes=["clean" if clean else "garbage"] + (["short-reads"] if opts.get("_bursts") else [])
+                   + ([f"source={opts['_source'].split(':')[0]}"] if opts.get("_source") and not opts.get("_bursts") else []),
                    dig=core.digest((data, sorted((k, repr(v)) for k, v in opts.items()))))
     try:
         ref, exc = run(data, dict(opts, protfilter=7, parsing=True if len(data) % 2 else 1))
@@ -166,6 +169,8 @@ OPTS = st.fixed_dictionaries({
     "quitonerror": st.sampled_from([0, 1]),
     # a source that hands out the data in bursts (reads may come back short), or not
     "_bursts": st.one_of(st.none(), st.none(), st.lists(st.integers(1, 60), min_size=1, max_size=20)),
+    # what the bytes sit behind: BytesIO, a buffered reader (has peek()), a real file, a raw pipe
+    "_source": st.sampled_from([None, None, "buffered:16", "buffered:8192", "file", "rawpipe"]),
 })
 
 
@@ -200,6 +205,26 @@ def run_shard(spec, ctx, acc):
                         "opts": {"msgmode": 0, "validate": val, "parsebitfield": 1, "quitonerror": qe, "_bursts": None}}
                 o = core.checked(check, case)
                 o.classes = list(o.classes) + ["largest-frames"]
+                core.handle(acc, o, case, known)
+    # a frame of one protocol carrying a complete frame of another, after noise / directly
+    # after a frame, behind every kind of source (deterministic)
+    ub, nm, rt = corp["ubx"][spec["part"] % len(corp["ubx"])], corp["nmea"][(spec["part"] * 7) % len(corp["nmea"])], \
+        corp["rtcm"][(spec["part"] * 5) % len(corp["rtcm"])]
+    carriers = [streams.item("ubx", S.codec.ubx_frame(b"\x04", b"\x02", b"rx: " + nm), "carrier"),
+                streams.item("ubx", S.codec.ubx_frame(b"\x04", b"\x04", rt), "carrier"),
+                streams.item("rtcm", S.codec.rtcm_frame(bytes([0xFF, 0xF0]) + ub), "carrier"),
+                streams.item("rtcm", S.codec.rtcm_frame(bytes([0xFE, 0x80]) + nm), "carrier")]
+    if b"\n" not in ub and b"\r" not in ub:
+        carriers.append(streams.item("nmea", b"$GNTXT,01,01,02," + ub + b"*00\r\n", "carrier"))  # (checksum wrong: rejected as a unit)
+    for car in carriers:
+        for lead in (b"", b"\x00\x01", b"\r\n"):
+            for source in (None, "buffered:16", "buffered:8192", "file", "rawpipe"):
+                items = ([streams.item("noise", lead, "noise")] if lead else []) + [car] + tail
+                case = {"kind": "filter", "items": items, "clean": True, "all_accepted": False,
+                        "opts": {"msgmode": 0, "validate": 1, "parsebitfield": 1, "quitonerror": spec["part"] % 2,
+                                 "_bursts": None, "_source": source}}
+                o = core.checked(check, case)
+                o.classes = list(o.classes) + ["carrier-frame"]
                 core.handle(acc, o, case, known)
     clean = st.tuples(streams.clean_streams(2, 6), OPTS).map(mk_clean)
     garb = st.tuples(streams.garbage_streams(8), OPTS).map(
